@@ -859,7 +859,7 @@ match Err(Error::StoppedByWatchdog).locate($1) { Ok(()) => (), Err(e) => return 
             final(self).executed() > old(self).executed() && every_poll_continued(old(self).polls(), final(self).polls())
                 ==> iteration_summary(&final(self).watchdog.after_op(), final(self).watchdog.op_result(), final(self).watchdog.last_op(), final(self)),      //@ob C17.loop.execute.nothing_is_undone_after_the_last_iteration C06.loop.execute.nothing_is_undone_after_the_last_iteration
             final(self).config == old(self).config, final(self).instructions_len == old(self).instructions_len, final(self).wf(),
-//@loop 1
+//@loop 1 kind=while
             invariant
                 poll_interval == old(self).watchdog.interval(), poll_interval >= 1, self.watchdog.interval() == poll_interval,
                 self.wf(), self.gas_within(), self.config == old(self).config, self.instructions_len == old(self).instructions_len,
